@@ -225,6 +225,8 @@ def run(shard, ctx):
                 raise AttributeError("another object")
         except AttributeError as e:
             ctx.fail("C19:%s.import_spelling_fails" % cfg, "attribute access %s from the top package: %s" % (name, e), {"configuration": cfg, "module": name, "statement": "attribute access"}, exc=e)
+    if any("import_spelling_fails" in k for k in ctx.failures):
+        return  # nothing further can be driven in a configuration whose modules cannot be imported the usual way
     if shard.get("fresh_imports"):
         # ... and each module as the *first* thing a fresh interpreter imports after `import pyscsi` (no other import has run that
         # could have repaired anything), in both spellings
